@@ -47,8 +47,18 @@ def run(tier):
     for i in range(500 if quick else 15000):
         plist.append({"name": "locals/%d" % i, "steps": [("snip", feat_exc.local_integrity_program(r3.fork(str(i))))], "mods": []})
 
+    # exception state must not leak from one run into the next on the same interpreter (uncaught throws of every kind
+    # followed by try / finally in later snippets)
+    from ..gen import feat_repl
+    r4 = ck.rng.fork("runs")
+    for i in range(200 if quick else 6000):
+        steps, hm = feat_repl.history(r4.fork(str(i)))
+        plist.append({"name": "runs/%d" % i, "steps": steps, "mods": hm})
+
     def seen(p, m, res):
         v = m["view"][0]
+        if v.get("k") != "snip":
+            return
         src = p["steps"][0][1]
         if "catch" in src and any(t in ("caught", "<class TypeError>", "true", "false") or t.startswith("<class") for t in v["out"]) \
                 and any(t.startswith("finally") for t in v["out"]):
